@@ -405,10 +405,11 @@ class CFG:
                 stack.append(d)
         return seen
 
-    def reaches_avoiding(self, a, b, avoid=(), no_exc=False):
-        """is there a path a ->+ b that avoids passing through `avoid`"""
+    def reaches_avoiding(self, a, b, avoid=(), no_exc=False, skip_edges=()):
+        """is there a path a ->+ b that avoids passing through `avoid` (and does not use `skip_edges`)"""
         seen = set()
-        stack = [d for d in self.succ[a] if not (no_exc and (a, d) in self.exc_edges)]
+        skip = set(skip_edges)
+        stack = [d for d in self.succ[a] if not (no_exc and (a, d) in self.exc_edges) and (a, d) not in skip]
         av = set(avoid)
         while stack:
             n = stack.pop()
@@ -419,6 +420,8 @@ class CFG:
             seen.add(n)
             for d in self.succ[n]:
                 if no_exc and (n, d) in self.exc_edges:
+                    continue
+                if (n, d) in skip:
                     continue
                 stack.append(d)
         return False
